@@ -21,6 +21,7 @@
 package engine
 
 import (
+	"errors"
 	"go/ast"
 	"go/token"
 	"reflect"
@@ -103,7 +104,7 @@ func (c *replacerCompiler) compile(v reflect.Value) Replacer {
 		return ZeroReplacer{Type: v.Type()}
 	case goast.StarExprPtrType:
 		return starExprReplacer{Replacer: c.compileGeneric(v)}
-	case goast.FuncTypePtrType, goast.IndexListPtrType:
+	case goast.FuncTypePtrType, goast.IndexListPtrType, goast.AssignStmtPtrType:
 		return canonicalReplacer{Replacer: c.compileGeneric(v)}
 	case goast.CommentGroupPtrType:
 		// TODO: We're currently ignoring comments in the replacement patch.
@@ -189,6 +190,12 @@ func (r canonicalReplacer) Replace(d data.Data, cl Changelog, pos token.Pos) (re
 			n.Results = nil
 		case len(res.List) == 1 && len(res.List[0].Names) == 0:
 			res.Opening, res.Closing = token.NoPos, token.NoPos
+		}
+	case *ast.AssignStmt:
+		// Unlike the lists above, these cannot do without elements.
+		if n != nil && (len(n.Lhs) == 0 || len(n.Rhs) == 0) {
+			return reflect.Value{}, errors.New(
+				`"..." stands for nothing here and leaves an assignment without operands`)
 		}
 	case *ast.IndexListExpr:
 		if n != nil && len(n.Indices) == 1 {
